@@ -209,9 +209,9 @@ def placed_sources(h: Sequence[Tuple[int, ...]], assign: Sequence[int], style: s
         head: List[str] = []
         for b in needed:
             bm = MODNAMES[assign[b]]
-            if style == 'from':
+            if style.startswith('from'):
                 head.append(f'from .{bm} import C{b}')
-            elif style == 'attr':
+            elif style.startswith('attr'):
                 head.append(f'from . import {bm}')
             else:
                 head.append(f'from pk.{bm} import *')
@@ -219,12 +219,16 @@ def placed_sources(h: Sequence[Tuple[int, ...]], assign: Sequence[int], style: s
         for i in mine:
             bl = []
             for b in h[i]:
-                if assign[b] != m and style == 'attr':
+                if assign[b] != m and style.startswith('attr'):
                     bl.append(f'{MODNAMES[assign[b]]}.C{b}')
                 else:
                     bl.append(f'C{b}')
             body.append((f'class C{i}({", ".join(bl)}):' if bl else f'class C{i}:') + '\n    pass')
         srcs[MODNAMES[m]] = '\n'.join(dict.fromkeys(head)) + '\n' + '\n'.join(body) + '\n'
+    if style.endswith('+cycle'):
+        # a valid import cycle: the module of the base classes imports (as a module) the module of the derived classes first
+        first, last = MODNAMES[min(assign)], MODNAMES[max(assign)]
+        srcs[first] = f'from pk import {last} as later_\n' + srcs[first]
     return srcs
 
 
@@ -241,6 +245,49 @@ def run_placed(h: Sequence[Tuple[int, ...]], assign: Sequence[int], style: str, 
     for v in res['violations']:
         if v['case'].get('variant', '').startswith('placed') and 'assign' not in v['case']:
             v['case'].update({'assign': list(assign), 'style': style, 'order': list(order)})
+
+
+# ---- a hidden definition still masks what lies behind it
+
+def run_hidden(n: int, res: Dict[str, Any]) -> None:
+    """For every hierarchy <= n classes with the member family m_P and every (class j, member) made HIDDEN: the inherited-member
+    tables of the other classes must never attribute the member to a class other than the one attribute lookup finds at run time
+    (it may be absent when that definer is the hidden one)."""
+    from pydoctor.templatewriter import util
+    for k in range(2, n + 1):
+        for h in hierarchies(k):
+            if not any(h):
+                continue
+            py = pyclasses(h, 'm')
+            if any(c is None for c in py):
+                sys.modules.pop('c05oracle_mod', None)
+                continue
+            for j in range(k):
+                own = [nm for nm in vars(py[j]) if nm.startswith('m_')]
+                for nm in own:
+                    s = pd.new_system({'privacy': [_hidden_rule(f'pk.h0.C{j}.{nm}')]}, systemcls=pd.RecordingSystem)
+                    b = s.systemBuilder(s)
+                    b.addModuleString('', 'pk', is_package=True)
+                    b.addModuleString(source(h, 'm'), 'h0', 'pk')
+                    b.buildModules()
+                    res['evals'] += 1
+                    res['nontrivial'].add(core.h('hidden', h, j, nm))
+                    for ci in range(k):
+                        cls = s.allobjects[f'pk.h0.C{ci}']
+                        definer = next((kl.__name__ for kl in py[ci].__mro__ if nm in vars(kl)), None)
+                        if definer is None:
+                            continue
+                        listed = [via[0].name for via, attrs in util.class_members(cls) for a in attrs if a.name == nm]
+                        for where in listed:
+                            if where != definer:
+                                res['violations'].append(core.violation('hidden-definer/member-table', f'C{ci}.{nm} of {h} with C{j}.{nm} hidden: listed as coming from {where}, attribute lookup finds it in {definer}',
+                                                                        {'kind': 'hidden', 'h': [list(x) for x in h], 'j': j, 'name': nm}))
+            sys.modules.pop('c05oracle_mod', None)
+
+
+def _hidden_rule(name: str) -> Any:
+    from pydoctor.utils import parse_privacy_tuple
+    return parse_privacy_tuple(f'HIDDEN:{name}', '--privacy')
 
 
 # ---- mro.mro level
@@ -309,9 +356,12 @@ def jobs(tier: str) -> Iterable[Tuple[str, Any]]:
     for start in range(0, 160, 40):
         yield ('generic:classes<=4', ('full', 4, start, 40, '', True))
     # (4) placements
-    for style in ('from', 'attr', 'star'):
+    for style in ('from', 'attr', 'star', 'from+cycle', 'attr+cycle'):
         yield ('placed:classes<=3x2mods', ('placed', 3, 2, style))
         yield ('placed:classes<=4x2mods', ('placed', 4, 2, style))
+    for start in range(0, 160, 20):
+        yield ('placed:classes<=5x2mods:cycle', ('placed5', start, 20))
+    yield ('hidden-definer:classes<=3', ('hidden', 3))
     # (5) mro.mro level, five classes (prefix = first 3 classes)
     for p in hierarchies(3):
         yield ('mro-level:classes<=5', ('mro', [list(b) for b in p], 5))
@@ -362,6 +412,26 @@ def run_job(job: Any, tier: str) -> Dict[str, Any]:
         if cnt:
             res['samples'].append({'placement_style': style, 'classes': n, 'modules': nmods, 'executions': cnt})
         core.bump(res, 'placed_executions', cnt)
+    elif job[0] == 'placed5':
+        # five-class hierarchies whose first four classes form every 4-class hierarchy with a diamond, split 2+3 over two cyclic modules
+        _, start, count = job
+        cnt = 0
+        for h4 in itertools.islice(hierarchies(4), start, start + count):
+            for b5 in ordered_subsets(4):
+                if len(b5) < 2:
+                    continue
+                h = tuple(h4) + (b5,)
+                for assign in ((0, 0, 0, 1, 1), (0, 0, 1, 1, 1)):
+                    if not any(assign[b] != assign[i] for i in range(5) for b in h[i]):
+                        continue
+                    for order in (('ma', 'mb'), ('mb', 'ma')):
+                        run_placed(h, assign, 'from+cycle', order, res)
+                        cnt += 1
+                        res['traces'] += 1
+                        res['nontrivial'].add(core.h(h, assign, order, 'c5'))
+        core.bump(res, 'placed_executions', cnt)
+    elif job[0] == 'hidden':
+        run_hidden(job[1], res)
     elif job[0] == 'mro':
         _, prefix, n = job
         mro_level([tuple(b) for b in prefix], n, res)
@@ -377,6 +447,9 @@ def replay(case: Dict[str, Any]) -> List[Dict[str, Any]]:
         want = [list(b) for b in h]
         return [v for v in res['violations'] if v['case']['h'] == want]
     v = case.get('variant', 'plain')
+    if case['kind'] == 'hidden':
+        run_hidden(len(h), res)
+        return [x for x in res['violations'] if x['case'] == case]
     if v.startswith('placed'):
         run_placed(h, case['assign'], case['style'], case['order'], res)
     else:
